@@ -357,11 +357,15 @@ fields("role:Thread", join="Any")
 # ---------------------------------------------------------------- readers (C20): library models
 contract("iface::ext.pprint.pformat", params=["object", "width"], defaults={"width": 80}, returns="str", modifies=[],
          notes="pprint.pformat(value, width=...): returns a str for JSON-decoded values (dict/list/str/int/float/bool/None); never raises for them")
+fields("role:DateTime", is_utc_="bool", of_="Any")
 contract("iface::ext.datetime.datetime.utcfromtimestamp", params=["t"], returns="role:DateTime", modifies=[],
+         ensures=[("the-utc-reading-of-that-timestamp", "fresh(result) and result.is_utc_ == True and result.of_ == box(t)")],
          notes="datetime.utcfromtimestamp(t) for a float timestamp in the platform's range (Eliot's timestamps are time.time() values): a datetime; "
                "out-of-range or non-numeric values raise (known finding C20-F2)")
-contract("iface::ext.datetime.datetime.fromtimestamp", params=["t"], returns="role:DateTime", modifies=[], notes="as utcfromtimestamp, local time")
-contract("iface::DateTime.isoformat", params=["self", "sep"], defaults={"sep": "T"}, returns="str", modifies=[], notes="datetime.isoformat(): str")
+contract("iface::ext.datetime.datetime.fromtimestamp", params=["t"], returns="role:DateTime", modifies=[], notes="as utcfromtimestamp, local time",
+         ensures=[("the-local-reading-of-that-timestamp", "fresh(result) and result.is_utc_ == False and result.of_ == box(t)")])
+contract("iface::DateTime.isoformat", params=["self", "sep"], defaults={"sep": "T"}, returns="str", modifies=[], notes="datetime.isoformat(sep): a function of the instant, of utc/local and of the separator",
+         ensures=[("text-of-that-reading", "result == iso_text(self.of_, self.is_utc_, sep)")])
 contract("iface::ext.json.dumps", returns="str", modifies=[], notes="json.dumps of a JSON-decoded value (any separators/cls): returns a str without raw newlines; never raises for such values")
 contract("iface::ext.json.loads", params=["s"], returns="Any", modifies=[],
          notes="json.loads(line): any JSON value (dict, list, str, int, float, bool, None) or raises a ValueError subclass (JSONDecodeError, "
